@@ -427,7 +427,10 @@ class RecAcq:
     def acquire(self, n, t=None):
         self.calls.append((n, t))
         self.seen_evidence.append(self.model.n_evidence)     # what the surrogate had been trained on at that moment
-        return self.ctx.array([[self.ctx.real('acq_t%s_%d' % (t, i))] for i in range(n)])
+        d = getattr(self.model, 'input_dim', 1)
+        if d == 1:
+            return self.ctx.array([[self.ctx.real('acq_t%s_%d' % (t, i))] for i in range(n)])
+        return self.ctx.array([[self.ctx.real('acq_t%s_%d_%d' % (t, i, c)) for c in range(d)] for i in range(n)])
 
 
 def run_bo(ctx, w, client, mp, bs, n_init, precomputed, n_total, bpa, update_interval, tag):
@@ -500,6 +503,37 @@ def h_bo_evidence(ctx, bs, n_init, n_total, bpa, precomp, max_queries=5):
     ctx.claim('no_task_left', len(client.tasks) == 0 and client.errors == [])
 
 
+def h_bo_two_params(ctx, n_total=3):
+    """Two parameters (t, u) and a user-supplied surrogate whose parameter order is solver-chosen ((t,u) or (u,t)): the
+    evidence rows must be the simulated parameters in the SURROGATE's column order, and the simulator must receive each
+    acquired point's columns under the right parameter names."""
+    bs = 1
+    w = World(ctx, bs, max_batches=n_total + 2, d_specials=(), extra_param=True)
+    names = (['t', 'u'], ['u', 't'])[ctx.choice('surrogate_parameter_order', 2)]
+    with w.env(), patched(std_bindings([bolfi], shadow_builtins=True)):
+        model = RecModel(list(names), [(0, 1), (0, 1)])
+        acq = RecAcq(ctx, 'a', model)
+        with use_client(native.Client()):
+            bo = bolfi.BayesianOptimization(w.model['d'], batch_size=bs, initial_evidence=1, update_interval=1,
+                                            target_model=model, acquisition_method=acq, batches_per_acquisition=1,
+                                            max_parallel_batches=1, seed=w.seed, async_acq=False)
+            w.consumed = []
+            w.watch(bo)
+            bo.infer(n_total, bar=False)
+    cons = list(w.consumed)
+    ctx.claim('one_batch_per_evidence_point', cons == list(range(n_total)) and model.n_evidence == n_total)
+    for b in cons:
+        simulated = {'t': w.sim_args[b][0][0], 'u': w.sim_args[b][1][0]}       # the simulator's positional parents are (t, u)
+        ctx.claim('evidence_row_%d_is_the_simulated_point_in_the_surrogates_column_order' % b,
+                  And(close(model.Xl[b][0], simulated[names[0]]), close(model.Xl[b][1], simulated[names[1]]),
+                      close(model.Yl[b], w.values[('d', b)][0])))
+        k = bo._get_acquisition_index(b)
+        if k >= 0:
+            pt = {names[c]: ctx.real('acq_t%s_%d_%d' % (k, 0, c)) for c in range(2)}
+            ctx.claim('batch_%d_simulates_the_acquired_point_under_the_right_names' % b,
+                      And(close(simulated['t'], pt['t']), close(simulated['u'], pt['u'])))
+
+
 HARNESSES = [
     H('minimize_d1_s2', h_minimize, dict(d=1, n_start=2, with_prior=False), bounds='dim 1, 2 start points, uniform starts'),
     H('minimize_d2_s2_prior', h_minimize, dict(d=2, n_start=2, with_prior=True), bounds='dim 2, 2 start points from a prior (clipped)'),
@@ -516,6 +550,8 @@ HARNESSES = [
       bounds='ExpIntVar.acquire (grid integration) dim 1, fixed bounds (0,1), 2 points, symbolic optimiser end points'),
     H('expintvar_acquire_d2_n1', h_maxvar_acquire, dict(d=2, n=1, cls='ExpIntVar'),
       bounds='ExpIntVar.acquire (grid) dim 2, fixed bounds (0,1)x(-1,0.5), 1 point'),
+    H('bo_two_params_surrogate_order', h_bo_two_params, dict(n_total=3),
+      bounds='2 parameters, user-supplied surrogate with solver-chosen parameter order, 1 initial + 2 acquired points, batch_size 1'),
     H('uniform_d2_n2', h_uniform, dict(d=2, n=2), bounds='UniformAcquisition dim 2, 2 points'),
     H('randmaxvar_metropolis', h_randmaxvar, dict(n_samples=2), bounds='RandMaxVar dim 1, metropolis with 2 samples, 1 acquisition',
       finding='C11/randmaxvar-leaves-bounds', finding_claims=('acquired_point_inside_bounds',)),
